@@ -67,6 +67,21 @@ def strip_check(cc):
     LOG.append(("<number>", [cc], v))
     return v
 
+def join2(a, b):
+    v = a + b[::-1]
+    LOG.append(("<c>", [a, b], v))
+    return v
+
+def pad(a):
+    v = a + a if a != "9" else "x9"
+    LOG.append(("<p>", [a], v))
+    return v
+
+def gen_pick():
+    v = str(random.randint(100, 999))
+    LOG.append(("<k3>", (), v))
+    return v
+
 def gen_bad(p):
     v = "zz" if random.random() < p else str(random.randint(0, 9))
     LOG.append(("<bad>", (), v))
@@ -74,7 +89,7 @@ def gen_bad(p):
 '''
 
 DIG = ["alt", [["lit", c] for c in "0123456789"]]
-GENERATED = {"<n>", "<k>", "<tag>", "<cc>", "<bad>"}
+GENERATED = {"<n>", "<k>", "<tag>", "<cc>", "<bad>", "<c>", "<p>", "<k3>"}
 
 
 def shards(tier: str) -> int:
@@ -85,9 +100,18 @@ def ref_add_check(number: str) -> str:
     return number + str(sum(int(c) for c in number) % 10)
 
 
+# dependent generators: symbol -> (argument symbols in call order, reference function)
+REF: dict[str, Any] = {
+    "<cc>": (["<number>"], ref_add_check),
+    "<c>": (["<a>", "<b>"], lambda a, b: a + b[::-1]),
+    "<p>": (["<a>"], lambda a: a + a if a != "9" else "x9"),
+}
+
+
 @st.composite
 def cases(draw: Any) -> dict[str, Any]:
-    fam = draw(st.sampled_from(["random", "random", "dependent", "dependent", "nested", "crep", "negative"]))
+    fam = draw(st.sampled_from(["random", "random", "dependent", "dependent", "nested", "crep", "negative",
+                                "dep2", "dep2", "partial", "subfield", "subfield"]))
     rules: list[Any]
     gens: dict[str, str] = {}
     cons: list[str] = []
@@ -116,6 +140,27 @@ def cases(draw: Any) -> dict[str, Any]:
         gens = {"cc": "add_check(str(<number>))", "number": "strip_check(str(<cc>))", "tag": "gen_tag()"}
         cons = draw(st.lists(st.sampled_from(["str(<tag>) != 'b'", "int(<number>) >= 30", "len(str(<start>)) > 8",
                                               "str(<tag>) == 'abba'"]), min_size=1, max_size=2))
+    elif fam == "dep2":
+        # a generator with TWO symbol arguments; the constraints aim at one of them
+        rules = [["start", ["seq", [["nt", "c"], ["lit", ";"], ["nt", "w"]]]], ["c", ["plus", DIG]],
+                 ["a", DIG], ["b", ["seq", [DIG, DIG]]], ["w", ["plus", ["alt", [["lit", "p"], ["lit", "q"]]]]]]
+        gens = {"c": "join2(str(<a>), str(<b>))"}
+        cons = draw(st.lists(st.sampled_from(["int(<a>) >= 5", "str(<a>) == '7'", "<a> == '3'", "int(<b>) % 2 == 0", "str(<b>) == '40'",
+                                              "len(str(<w>)) >= 2", "int(<c>) % 3 == 0", "int(<a>) + int(<b>) > 60"]), min_size=1, max_size=2))
+    elif fam == "partial":
+        # a dependent generator whose value fits the rule for some argument values only
+        rules = [["start", ["seq", [["nt", "p"], ["lit", ";"], ["nt", "w"]]]], ["p", ["seq", [DIG, DIG]]],
+                 ["a", DIG], ["w", ["plus", ["alt", [["lit", "p"], ["lit", "q"]]]]]]
+        gens = {"p": "pad(str(<a>))"}
+        cons = draw(st.lists(st.sampled_from(["int(<a>) >= 8", "str(<a>) == '9'", "<a> == '9'", "int(<a>) % 3 == 0", "len(str(<w>)) >= 2"]),
+                             min_size=1, max_size=2))
+    elif fam == "subfield":
+        # constraints aimed at a sub-symbol of a generated field
+        rules = [["start", ["seq", [["nt", "k3"], ["lit", ";"], ["nt", "w"]]]], ["k3", ["seq", [["nt", "hi"], ["nt", "lo"]]]],
+                 ["hi", DIG], ["lo", ["seq", [DIG, DIG]]], ["w", ["plus", ["alt", [["lit", "p"], ["lit", "q"]]]]]]
+        gens = {"k3": "gen_pick()"}
+        cons = draw(st.lists(st.sampled_from(["<hi> == '7'", "str(<hi>) == '7'", "int(<hi>) == 7", "str(<lo>) == '00'", "<lo> == '42'",
+                                              "int(<lo>) > 90", "len(str(<w>)) >= 2"]), min_size=1, max_size=2))
     elif fam == "crep":
         rules = [["start", ["seq", [["nt", "len"], ["lit", ":"], ["crep", ["seq", [["nt", "n"], ["lit", ";"]]], "int(<len>)"]]]],
                  ["len", ["alt", [["lit", c] for c in "0123"]]], ["n", ["plus", DIG]]]
@@ -155,12 +200,17 @@ def check_tree(f: Any, fresh: Any, log: list[Any], t: Any, where: str) -> list[s
         if text not in results.get(sym, set()):
             msgs.append(f"{where}: {sym} holds {text!r}, which the generator never returned (returned: {sorted(results.get(sym, set()))[:8]}) in {str(t)!r}")
             continue
-        if sym == "<cc>":
-            srcs = [s for s in node.sources if s.symbol.is_non_terminal and s.symbol.name() == "<number>"]
-            if len(srcs) == 1:
-                want = ref_add_check(str(srcs[0]))
+        if sym in REF:
+            arg_syms, ref = REF[sym]
+            args = []
+            for a_ in arg_syms:
+                srcs = [s for s in node.sources if s.symbol.is_non_terminal and s.symbol.name() == a_]
+                if len(srcs) == 1:
+                    args.append(str(srcs[0]))
+            if len(args) == len(arg_syms):
+                want = ref(*args)
                 if text != want:
-                    msgs.append(f"{where}: <cc> holds {text!r} but the recorded argument <number>={str(srcs[0])!r} gives {want!r}")
+                    msgs.append(f"{where}: {sym} holds {text!r} but the recorded argument(s) {dict(zip(arg_syms, args))} give {want!r}")
         parsed = fresh.grammar.parse(text, node.symbol)
         if parsed is None or S.shape(parsed) != S.shape(node):
             msgs.append(f"{where}: subtree of {sym} ({S.shape(node)!r:.200}) is not the parse of the generated value {text!r}")
